@@ -303,8 +303,103 @@ def rule_X9(ctx) -> None:
         ctx.proved("X9", cname, mod.loc(fn), f"{n} returning paths")
 
 
+X10_TOPOLOGIES = {
+    # helper -> (current package, referenced package) pairs; components repeat on purpose (a.b.a, a.a)
+    "reference_descendent": [(("a",), ("a", "b")), (("a",), ("a", "b", "c")), (("a",), ("a", "b", "a")), (("a",), ("a", "a")), (("a", "b"), ("a", "b", "b")),
+                             ((), ("x",)), ((), ("x", "y")), (("a", "b"), ("a", "b", "a", "b")), (("p", "q"), ("p", "q", "r", "p", "s"))],
+    "reference_ancestor": [(("a", "b"), ("a",)), (("a", "b", "c"), ("a",)), (("a", "a"), ("a",)), (("a", "b", "a"), ("a", "b")), (("a", "b", "c", "d"), ("a", "b"))],
+    "reference_cousin": [(("a", "x"), ("a", "y")), (("a", "x"), ("a", "b", "c")), (("a",), ("b",)), (("a", "b"), ("c", "d", "e")), (("a", "b", "c"), ("a", "d")),
+                         (("a", "x"), ("a", "y", "x")), (("a", "b"), ("b", "a")), (("a", "x", "y"), ("a", "z", "x", "y"))],
+}
+
+
+def _resolve_relative(cur, line: str):
+    """absolute module named by `from <dots><path> import <name> [as ..]` written in package `cur` (Python's relative import
+    rule: one dot is the package itself, each further dot one level up); None when the line has another form"""
+    import re as _re
+    m = _re.fullmatch(r"from (\.+)([A-Za-z0-9_.]*) import ([A-Za-z0-9_]+)(?: as .+)?", line.strip())
+    if not m:
+        return None
+    up = len(m.group(1)) - 1
+    if up > len(cur):
+        return ("beyond-top-level",)
+    base = tuple(cur[: len(cur) - up])
+    path = tuple(x for x in m.group(2).split(".") if x)
+    return base + path + (m.group(3),)
+
+
+def rule_X10(ctx, rule: str = "X10") -> None:
+    """the relative import line each reference_* helper registers names the referenced package: the helper is partially
+    evaluated (E2, constant package lists) on a table of package topologies - repeated components included - and the line it
+    adds to the imports is resolved by Python's relative-import rule from the current package"""
+    mod = ctx.repo.mod(M_IMPORTING)
+    n_ob = 0
+    for q, table in X10_TOPOLOGIES.items():
+        fn = mod.func(q)
+        ctx.analysed(q)
+        params = [a.arg for a in fn.args.args]
+        if not {"current_package", "py_package", "py_type"} <= set(params):
+            ctx.inconclusive(rule, f"{q}:import-names-the-package", f"parameters {params} not recognised", mod.loc(fn))
+            continue
+        bad = None
+        unknown = None
+        for cur, py in table:
+            b = {N("current_package"): tuple(cur), N("py_package"): tuple(py), N("py_type"): "T"}
+            paths = Interp(mod, bindings=b, auto_inline=True, fork_ifexp=True).run(fn)
+            ctx.count(len(paths))
+            n_ob += 1
+            rets = [p for p in paths if p.outcome == "return"]
+            if len(paths) != 1 or len(rets) != 1:
+                outcome = ",".join(sorted({p.outcome + (":" + dotted(p.value[1]) if p.outcome == "raise" and p.value and p.value[0] == "call" else "") for p in paths}))
+                if all(p.outcome == "raise" for p in paths) and paths:
+                    bad = bad or (cur, py, f"raises ({outcome})", None)
+                else:
+                    unknown = unknown or f"{cur}->{py}: {len(paths)} paths ({outcome})"
+                continue
+            adds = [e for e in rets[0].events if e.kind == "call" and dotted(e.data[1]).endswith(".add") and e.data[2]]
+            if len(adds) != 1:
+                unknown = unknown or f"{cur}->{py}: {len(adds)} imports registered"
+                continue
+            line = adds[0].data[2][0]
+            if line[0] == "c" and isinstance(line[1], str):
+                text = line[1]
+            elif line[0] == "fstr":
+                # holes are allowed only after ` as ` (the alias, built by the repository's casing function)
+                text = ""
+                for part in line[1]:
+                    if part[0] == "c":
+                        text += str(part[1])
+                    elif " as " in text:
+                        text += "ALIAS"
+                    else:
+                        text = None
+                        break
+            else:
+                text = None
+            if text is None:
+                unknown = unknown or f"{cur}->{py}: import line {show(line)[:80]} is not constant up to the alias"
+                continue
+            got = _resolve_relative(cur, text)
+            if got is None:
+                unknown = unknown or f"{cur}->{py}: import line {text!r} not of the relative form"
+            elif got != tuple(py):
+                bad = bad or (cur, py, text, got)
+        name = f"{q}:import-names-the-package"
+        if bad:
+            cur, py, text, got = bad
+            ctx.refuted(rule, name, f"{'.'.join(cur) or '<root>'}->{'.'.join(py)}", mod.loc(fn),
+                        f"from package {'.'.join(cur) or '<root>'!r} a type of package {'.'.join(py)!r} is imported with {text!r}"
+                        + (f", which Python resolves to {'.'.join(got)!r}" if got else "") + ": the reference denotes another module (or generation fails)",
+                        f"packages {'.'.join(cur) or '<root>'} and {'.'.join(py)} in one request")
+        elif unknown:
+            ctx.inconclusive(rule, name, unknown[:300], mod.loc(fn))
+        else:
+            ctx.proved(rule, name, mod.loc(fn), f"{len(table)} topologies")
+    ctx.floor(rule, "helper x topology", n_ob, 15)
+
+
 def run(ctx) -> None:
-    for name, fn in (("X9", rule_X9), ("X1", template.rule_X1), ("X2", rule_X2), ("X3", rule_X3), ("X4", rule_X4), ("X5", rule_X5), ("X6", rule_X6), ("X7", rule_X7), ("X8", rule_X8)):
+    for name, fn in (("X10", rule_X10), ("X9", rule_X9), ("X1", template.rule_X1), ("X2", rule_X2), ("X3", rule_X3), ("X4", rule_X4), ("X5", rule_X5), ("X6", rule_X6), ("X7", rule_X7), ("X8", rule_X8)):
         ctx.rules_run.append(name)
         fn(ctx)
     from .c03 import rule_P7, rule_P13
@@ -312,4 +407,4 @@ def run(ctx) -> None:
     rule_P13(ctx)    # a nested type is defined under the name its references derive
     ctx.rules_run.append("P7")
     rule_P7(ctx)     # a generated package module is never replaced by an empty __init__.py listed next to it: references into an ancestor package stay resolvable
-    ctx.notes.append("NOT DECIDED: relative-import depth arithmetic, alias collisions, circular import behaviour")
+    ctx.notes.append("NOT DECIDED: alias collisions, circular import behaviour; relative-import arithmetic is decided on the X10 table of topologies only")
